@@ -166,6 +166,15 @@ def body_core(case, ctx):
         cv = np.asarray(est.cdf(q.copy()), dtype=float)
     if cv.shape != q.shape:
         raise Violation(f"cdf-shape:{kind}", f"cdf of {q.shape} points has shape {cv.shape}")
+    # the cumulative function is a function of the point: the order in which points are passed (and passing one alone) is immaterial
+    perm = g.permutation(q.size)
+    with np.errstate(all="ignore"):
+        cv_p = np.asarray(est.cdf(q[perm].copy()), dtype=float)
+        c_one = float(np.asarray(est.cdf(float(q[q.size // 2]))).ravel()[0])
+    if cv_p.shape != cv.shape or np.max(np.abs(cv_p - cv[perm])) > TOL["mass"] or abs(c_one - cv[q.size // 2]) > TOL["mass"]:
+        k = int(np.argmax(np.abs(cv_p - cv[perm]))) if cv_p.shape == cv.shape else 0
+        raise Violation(f"cdf-order:{kind}", f"cdf evaluated on the same points in another order differs: cdf({q[perm][k]!r}) = {cv_p[k]!r} in a shuffled array, {cv[perm][k]!r} in an ascending one "
+                                            f"(alone: cdf({q[q.size // 2]!r}) = {c_one!r} vs {cv[q.size // 2]!r})")
     for i in range(q.size - 1):
         want = gl_integral(est, edges, a=q[i], b=q[i + 1])
         got = cv[i + 1] - cv[i]
